@@ -18,9 +18,9 @@
    script has a second component, [ctx : ctxc]: the *AuthContext returned
    TOGETHER WITH the error (nil / alice / the introspector); every theorem
    quantifies over it.
-   Finite domain used by computation: the feature lattice, 2^11 = 2048
+   Finite domain used by computation: the feature lattice, 2^12 = 4096
    configurations (prefix, landing/describe/not-found page, sticky, PKCE, custom
-   routes, upload provider, introspection, OAuth metadata, CORS) x the
+   routes, upload provider, introspection, OAuth metadata, CORS, max_request_bytes cap) x the
    effective-PKCE flag x the 18 routes of the table; lifted to all
    configurations with forallb_forall + [all_configs_complete]. Requests are
    NOT bounded. *)
@@ -103,12 +103,33 @@ Theorem open_routes_exactly : forall c a ctx q st,
   (o_work o = [] /\ o_status o = st /\ o_consulted o = true)
   \/ (q_meth q = M_OPTIONS /\ o_status o = 204 /\ o_work o = [] /\ o_consulted o = false)
   \/ (q_meth q <> M_OPTIONS /\ routed c a q = None /\ o_work o = [] /\ o_consulted o = false
-      /\ In (o_status o) [redirect_status; 404; 405])
+      /\ In (o_status o) [redirect_status; 404; 405; 413]
+      /\ (o_status o = 413 <-> pre413 c q = true))
   \/ (exists r, routed c a q = Some r /\ In r (registered c (pkce_on c a))
         /\ auth_required c (pkce_on c a) r = false
         /\ (class_open (route_class r) = true \/ (r = R_introspect /\ c_introspect c = false))
         /\ forall w, In w (o_work o) -> In w (open_work r)).
 Proof. exact unauthenticated_reach. Qed.
+
+(* The request-cap fast path of ServeHTTP (SetMaxRequestBytes; declared
+   Content-Length above the cap, path not under /health or {prefix}/health)
+   runs BEFORE the mux and the authenticator. For every configuration - upload
+   provider configured or not -, every authenticator script and every route:
+   413, empty work trace (no provider call, no vended URL), authenticator not
+   consulted. *)
+Theorem over_cap_request_does_no_work : forall c a ctx q,
+  q_meth q <> M_OPTIONS -> pre413 c q = true ->
+  o_status (serve c a ctx q) = 413 /\ o_work (serve c a ctx q) = []
+  /\ o_consulted (serve c a ctx q) = false.
+Proof. exact pre_dispatch_413. Qed.
+
+(* On NO response to a request the authenticator rejects - auth-layer exit,
+   preflight, 413, 415/404/405/307, open route - does the upload-URL provider
+   run or a pre-signed URL appear (headers or body). *)
+Theorem rejected_caller_is_never_vended_a_url : forall c a ctx q st,
+  auth_outcome a = AR_rej st ->
+  ~ In W_vend (o_work (serve c a ctx q)) /\ ~ In W_provider (o_work (serve c a ctx q)).
+Proof. exact rejected_never_vended. Qed.
 
 (* ... and none of the six classes is empty talk: each is reached, without the
    authenticator being consulted and without a 401, by a rejected caller. *)
@@ -164,7 +185,7 @@ Proof. exact legacy_refuted. Qed.
 (* ---- non-vacuity ----------------------------------------------------------- *)
 Definition ex_req : request :=
   {| q_meth := M_POST; q_path := str "/vgi/exch/exchange"; q_ctype := CT_arrow;
-     q_body := B_exch (str "exch"); q_sess := S_none; q_html := false |}.
+     q_body := B_exch (str "exch"); q_sess := S_none; q_html := false; q_big := false |}.
 
 (* the premises of rejected_request_does_no_work hold for a concrete request,
    and the same request does real work once the authenticator accepts *)
@@ -181,14 +202,14 @@ Proof. vm_compute. repeat split. Qed.
 Example open_route_with_work :
   o_work (serve (cfgm 2047) A_fail CX_nil
             {| q_meth := M_DELETE; q_path := str "/vgi/__session__"; q_ctype := CT_none;
-               q_body := B_none; q_sess := S_anon; q_html := false |}) = [W_session_close].
+               q_body := B_none; q_sess := S_anon; q_html := false; q_big := false |}) = [W_session_close].
 Proof. vm_compute. reflexivity. Qed.
 
 (* (nil, nil) from the authenticator: an empty 200, no work *)
 Example nilnil_is_a_silent_200 :
   let o := serve (cfgm 2047) A_nilnil CX_nil
              {| q_meth := M_POST; q_path := str "/vgi/u_int"; q_ctype := CT_arrow;
-                q_body := B_req (str "u_int"); q_sess := S_none; q_html := false |} in
+                q_body := B_req (str "u_int"); q_sess := S_none; q_html := false; q_big := false |} in
   o_status o = 200 /\ o_work o = [] /\ o_consulted o = true /\ o_body o = Some BK_empty.
 Proof. vm_compute. repeat split. Qed.
 
@@ -197,7 +218,21 @@ Proof. vm_compute. repeat split. Qed.
    a refused-but-identified alice closes alice's own session *)
 Example session_delete_uses_returned_context :
   let q := {| q_meth := M_DELETE; q_path := str "/vgi/__session__"; q_ctype := CT_none;
-              q_body := B_none; q_sess := S_alice; q_html := false |} in
+              q_body := B_none; q_sess := S_alice; q_html := false; q_big := false |} in
   o_work (serve (cfgm 2015) A_fail CX_alice q) = [W_session_close]
   /\ o_work (serve (cfgm 2015) A_fail CX_nil q) = [].
 Proof. vm_compute. split; reflexivity. Qed.
+
+(* the premises of over_cap_request_does_no_work are met: cap and upload provider
+   configured, rejecting authenticator, over-cap request to __upload_url__/init;
+   the same request of normal size is stopped by the authenticator instead, and
+   an over-cap health probe is exempt *)
+Example over_cap_premises_met :
+  let q b p := {| q_meth := M_POST; q_path := p; q_ctype := CT_arrow;
+                  q_body := B_req c22_upload_seg; q_sess := S_none; q_html := false; q_big := b |} in
+  pre413 (cfgm 4063) (q true (str "/vgi/__upload_url__/init")) = true
+  /\ o_status (serve (cfgm 4063) A_fail CX_alice (q true (str "/vgi/__upload_url__/init"))) = 413
+  /\ o_status (serve (cfgm 4063) A_fail CX_alice (q false (str "/vgi/__upload_url__/init"))) = 401
+  /\ o_work (serve (cfgm 4063) A_ok CX_nil (q false (str "/vgi/__upload_url__/init"))) = [W_body; W_provider; W_vend]
+  /\ pre413 (cfgm 4063) (q true (str "/vgi/health")) = false.
+Proof. vm_compute. repeat split. Qed.
